@@ -28,6 +28,15 @@
 //       thread, blocking in the real select() / condition variable (the code path the scheduler replaces elsewhere).  Only
 //       `k FREE` is printed; the oracle checks order, exactly-once and that every blocking receive eventually returns its
 //       Message (a 30 s watchdog reports a hang).  Supporting evidence for the runtime residue, not part of the tie.
+//    f=3: "timed" run -- no scheduler, REAL clocks: exercises WaitCondition::WaitUntilAux / the real select() with a finite
+//       wakeupTime, which the controlled scheduler never executes.  Head: m=<s|w>,f=3,dir=<I|O> (I: the internal thread is the
+//       receiver of Messages the owner sends; O: the owner is the receiver of replies the internal thread sends).  Body:
+//       r:<op>;..;s:<op>;..  receiver script (p poll, t receive with deadline now+5 s, u .. now+1 s, n untimed, z<ms> sleep) and
+//       sender script (s send the next Message, z<ms> sleep).  Only `k TIMED` is printed; the oracle reports a Message lost /
+//       duplicated / reordered, and a timed receive that came back at its deadline (within 0.25 s) although a Message it had
+//       not yet been given was queued at least 1.5 s before that deadline (the wake-up can only have been the timeout).  A
+//       failing scenario is run a second time on its own and reported only if it fails again.  `--timed-batch` runs all the
+//       f=3 lines on stdin concurrently (wall time = the longest scenario).
 //    sch: explicit decisions ("2" run thread 2, "2!" fire thread 2's timeout), entries that are not enabled are skipped;
 //    beyond them: seed=N random policy, seed=- non-preemptive policy.  Internal threads get the ids n, n+1, .. as created.
 // modes:  (default) cases on stdin -> traces;   --explore <max_preemptions> <max_runs>: for each stdin case print every
@@ -709,15 +718,232 @@ static void explore_case(const Case & c, int maxPre, size_t maxRuns)
    fflush(stdout);
 }
 
+// ---------------------------------------------------------------------------------------------------------------------
+// f=3: timed scenarios on the real clock (self-contained: no scheduler, no globals shared between scenarios)
+
+struct TOp { char kind; long ms; };     // receiver: p t u n z ; sender: s z
+
+struct TimedCase {
+   bool sockets; char dir; std::vector<TOp> rscript, sscript; std::string line;
+};
+
+static bool parse_timed(const std::string & line, TimedCase & c)
+{
+   const size_t bar = line.find('|');
+   if (bar == std::string::npos) return false;
+   const std::string head = line.substr(0, bar), body = line.substr(bar+1);
+   if (head.find("f=3") == std::string::npos) return false;
+   c.line = line; c.sockets = (head.find("m=w") == std::string::npos); c.dir = (head.find("dir=O") != std::string::npos) ? 'O' : 'I';
+   c.rscript.clear(); c.sscript.clear();
+   std::vector<std::string> os = split(body, ';');
+   for (size_t i=0; i<os.size(); i++)
+   {
+      if (os[i].size() < 3 || os[i][1] != ':') {if (os[i].empty()) continue; return false;}
+      TOp op; op.kind = os[i][2]; op.ms = (os[i].size() > 3) ? atol(os[i].c_str()+3) : 0;
+      if (os[i][0] == 'r') {if (!strchr("ptunz", op.kind)) return false; c.rscript.push_back(op);}
+      else if (os[i][0] == 's') {if (!strchr("sz", op.kind)) return false; c.sscript.push_back(op);}
+      else return false;
+   }
+   return true;
+}
+
+struct TimedState {
+   std::mutex mu;
+   std::vector<uint64> sentAt;            // sentAt[id-1]: when the send of Message <id> had returned
+   std::vector<long> got;                 // ids in the order received
+   std::vector<std::string> fails;
+   volatile bool recvDone;                // the receiver script has finished
+   TimedState() : recvDone(false) {}
+   void Fail(const std::string & w) {std::unique_lock<std::mutex> lk(mu); if (fails.size() < 6) fails.push_back(w);}
+};
+
+class TimedThread : public Thread
+{
+public:
+   TimedThread(bool sockets, const TimedCase * c, TimedState * st) : Thread(sockets), _c(c), _st(st) {}
+   virtual void InternalThreadEntry();
+   void RunReceiver(bool fromInternal);
+   void RunSender(bool fromInternal);
+   const TimedCase * _c; TimedState * _st;
+};
+
+static void sleep_ms(long ms) {if (ms > 0) (void) Snooze64(MillisToMicros(ms));}
+
+void TimedThread :: RunSender(bool fromInternal)
+{
+   long nextID = 1;
+   for (size_t i=0; i<_c->sscript.size(); i++)
+   {
+      const TOp & op = _c->sscript[i];
+      if (op.kind == 'z') sleep_ms(op.ms);
+      else
+      {
+         MessageRef m = GetMessageFromPool((uint32) nextID);
+         {std::unique_lock<std::mutex> lk(_st->mu); _st->sentAt.push_back(0);}
+         const status_t r = fromInternal ? SendMessageToOwner(m) : SendMessageToInternalThread(m);
+         const uint64 now = GetRunTime64();
+         {std::unique_lock<std::mutex> lk(_st->mu); _st->sentAt[nextID-1] = now;}
+         if (r.IsError()) _st->Fail("a send failed");
+         nextID++;
+      }
+   }
+}
+
+void TimedThread :: RunReceiver(bool fromInternal)
+{
+   for (size_t i=0; i<_c->rscript.size(); i++)
+   {
+      const TOp & op = _c->rscript[i];
+      if (op.kind == 'z') {sleep_ms(op.ms); continue;}
+      const uint64 tc = GetRunTime64();
+      const uint64 D = (op.kind == 't') ? SecondsToMicros(5) : ((op.kind == 'u') ? SecondsToMicros(1) : 0);
+      const uint64 when = (op.kind == 'p') ? 0 : ((op.kind == 'n') ? MUSCLE_TIME_NEVER : (tc+D));
+      size_t hadBefore; {std::unique_lock<std::mutex> lk(_st->mu); hadBefore = _st->got.size();}
+      MessageRef m;
+      const status_t r = fromInternal ? WaitForNextMessageFromOwner(m, when) : GetNextReplyFromInternalThread(m, when);
+      const uint64 tr = GetRunTime64();
+      if (r.IsOK())
+      {
+         const long id = m() ? (long) m()->what : -1;
+         std::unique_lock<std::mutex> lk(_st->mu);
+         if (id != (long) _st->got.size()+1) {char b[128]; snprintf(b, sizeof(b), "received Message %ld where Message %ld was due (lost, duplicated or out of order)", id, (long) _st->got.size()+1); if (_st->fails.size() < 6) _st->fails.push_back(b);}
+         _st->got.push_back(id);
+      }
+      else if (!(r == B_TIMED_OUT)) _st->Fail(std::string("unexpected status from a receive: ") + r());
+      if (D > 0)
+      {
+         // the decision rule: back only at the deadline although a Message not yet given to us was queued >= 1.5 s before it
+         const uint64 dl = tc+D;
+         std::unique_lock<std::mutex> lk(_st->mu);
+         const bool atDeadline = (tr + MillisToMicros(250) >= dl);
+         if (atDeadline && _st->sentAt.size() > hadBefore && _st->sentAt[hadBefore] != 0 && _st->sentAt[hadBefore] + MillisToMicros(1500) <= dl)
+         {
+            char b[256]; snprintf(b, sizeof(b), "lost wake-up: a receive with a %d s deadline came back %s only after %.2f s although Message %ld had been queued %.2f s after the call (the wake-up was the timeout)",
+               (int) MicrosToSeconds(D), r.IsOK() ? "with the Message" : "empty-handed", (double)(tr-tc)/1000000.0, (long) hadBefore+1,
+               (_st->sentAt[hadBefore] > tc) ? (double)(_st->sentAt[hadBefore]-tc)/1000000.0 : 0.0);
+            if (_st->fails.size() < 6) _st->fails.push_back(b);
+         }
+         if (r == B_TIMED_OUT && tr + MillisToMicros(100) < dl) {if (_st->fails.size() < 6) _st->fails.push_back("a timed receive reported B_TIMED_OUT well before its deadline");}
+      }
+   }
+   {std::unique_lock<std::mutex> lk(_st->mu); _st->recvDone = true;}
+}
+
+void TimedThread :: InternalThreadEntry()
+{
+   if (_c->dir == 'I') RunReceiver(true); else RunSender(true);
+   // then wait for the NULL Message of ShutdownInternalThread(), keeping whatever else arrives for the final count
+   while(true)
+   {
+      MessageRef m;
+      const status_t r = WaitForNextMessageFromOwner(m, MUSCLE_TIME_NEVER);
+      if (r.IsError()) {if (r == B_TIMED_OUT) continue; break;}
+      if (m() == NULL) break;
+      std::unique_lock<std::mutex> lk(_st->mu);
+      const long id = (long) m()->what;
+      if (id != (long) _st->got.size()+1 && _st->fails.size() < 6) _st->fails.push_back("a Message was received out of order while draining");
+      _st->got.push_back(id);
+   }
+}
+
+static std::vector<std::string> run_timed_once(const TimedCase & c)
+{
+   TimedState st;
+   TimedThread * tt = new TimedThread(c.sockets, &c, &st);
+   if (tt->StartInternalThread().IsError()) {delete tt; return std::vector<std::string>(1, "StartInternalThread failed");}
+   if (c.dir == 'I') tt->RunSender(false); else tt->RunReceiver(false);
+   // let the receiver finish its script before the NULL Message is queued (it never blocks for longer than its deadlines,
+   // and the scripts end every untimed receive with a Message); the watchdog bounds this
+   while(true) {{std::unique_lock<std::mutex> lk(st.mu); if (st.recvDone) break;} sleep_ms(10);}
+   tt->ShutdownInternalThread(true);
+   if (c.dir == 'O')
+   {
+      // whatever the owner did not ask for is still in the reply queue
+      MessageRef m;
+      while(tt->GetNextReplyFromInternalThread(m, 0).IsOK())
+      {
+         const long id = m() ? (long) m()->what : -1;
+         if (id != (long) st.got.size()+1 && st.fails.size() < 6) st.fails.push_back("a reply was left over out of order");
+         st.got.push_back(id);
+      }
+   }
+   size_t nsent = 0; for (size_t i=0; i<c.sscript.size(); i++) if (c.sscript[i].kind == 's') nsent++;
+   if (st.got.size() != nsent) {char b[128]; snprintf(b, sizeof(b), "%ld Message(s) sent but %ld received (exactly-once violated)", (long) nsent, (long) st.got.size()); st.fails.push_back(b);}
+   delete tt;
+   return st.fails;
+}
+
+static std::vector<std::string> run_timed(const TimedCase & c)
+{
+   std::vector<std::string> f = run_timed_once(c);
+   if (f.empty()) return f;
+   std::vector<std::string> f2 = run_timed_once(c);     // on its own this time; report only what happens twice
+   if (f2.empty()) return f2;
+   f2[0] += " [seen in two consecutive runs]";
+   return f2;
+}
+
+static void on_timed_watchdog(int)
+{
+   const char * m = "0 ORACLE FAIL timed scenarios hung for 40 s: a blocked receive was never woken, or shutdown did not complete\n";
+   ssize_t w = write(1, m, strlen(m)); (void) w;
+   _exit(3);
+}
+
+static void timed_batch(const std::vector<std::string> & lines)
+{
+   std::vector<TimedCase> cs(lines.size()); std::vector<int> okv(lines.size(), 0);
+   std::vector<std::vector<std::string> > res(lines.size());
+   for (size_t i=0; i<lines.size(); i++) okv[i] = parse_timed(lines[i], cs[i]) ? 1 : 0;
+   signal(SIGALRM, on_timed_watchdog); alarm(40);
+   std::vector<std::thread> ths;
+   for (size_t i=0; i<lines.size(); i++) if (okv[i]) ths.push_back(std::thread([&cs, &res, i]{res[i] = run_timed_once(cs[i]);}));
+   for (size_t i=0; i<ths.size(); i++) ths[i].join();
+   // second chance, one at a time, for whatever failed under the concurrent load
+   for (size_t i=0; i<lines.size(); i++) if (okv[i] && !res[i].empty())
+   {
+      alarm(40);
+      std::vector<std::string> f2 = run_timed_once(cs[i]);
+      if (f2.empty()) res[i].clear(); else {f2[0] += " [seen in two consecutive runs]"; res[i] = f2;}
+   }
+   alarm(0);
+   for (size_t i=0; i<lines.size(); i++)
+   {
+      if (!okv[i]) {printf("%ld BADCASE\n", (long) i); continue;}
+      printf("%ld TIMED\n", (long) i);
+      for (size_t j=0; j<res[i].size(); j++) printf("%ld ORACLE FAIL %s\n", (long) i, res[i][j].c_str());
+   }
+   fflush(stdout);
+}
+
 int main(int argc, char ** argv)
 {
    CompleteSetupSystem css;
+   if (argc >= 2 && strcmp(argv[1], "--timed-batch") == 0)
+   {
+      std::vector<std::string> lines; char * ln = NULL; size_t cp = 0; ssize_t l;
+      while((l = getline(&ln, &cp, stdin)) >= 0) {while(l > 0 && (ln[l-1] == '\n' || ln[l-1] == '\r')) ln[--l] = 0; lines.push_back(ln);}
+      timed_batch(lines);
+      _exit(0);
+   }
    int maxPre = -1; size_t maxRuns = 0;
    if (argc >= 4 && strcmp(argv[1], "--explore") == 0) {maxPre = atoi(argv[2]); maxRuns = (size_t) atol(argv[3]);}
    char * line = NULL; size_t cap = 0; ssize_t len; long k = 0;
    while((len = getline(&line, &cap, stdin)) >= 0)
    {
       while(len > 0 && (line[len-1] == '\n' || line[len-1] == '\r')) line[--len] = 0;
+      {
+         TimedCase tc;
+         if (maxPre < 0 && parse_timed(line, tc))
+         {
+            printf("%ld TIMED\n", k); fflush(stdout);
+            signal(SIGALRM, on_timed_watchdog); alarm(40);
+            const std::vector<std::string> f = run_timed(tc);
+            alarm(0);
+            for (size_t j=0; j<f.size(); j++) printf("%ld ORACLE FAIL %s\n", k, f[j].c_str());
+            fflush(stdout); k++; continue;
+         }
+      }
       Case c;
       if (!parse_case(line, c)) {if (maxPre < 0) {printf("%ld BADCASE\n", k); fflush(stdout);} k++; continue;}
       if (maxPre >= 0) explore_case(c, maxPre, maxRuns); else if (c.freeRun) run_case_free(k, c); else run_case(k, c);
